@@ -28,18 +28,17 @@ MODELLED_NOT_VERIFIED = [
     "collection bound to a different namespace is outside the statement (documented: originals are migrated); histories never do it and the "
     "theorems carry it as the decidable hypothesis `Valid`",
 ]
-EXPLANATION = ("Theorems (Props/C11.lean, about the definitions drv_c11 runs; stepG = step guarded by idsOk): closed_init; closed_step_partial / "
-               "closed_stepG_partial - Inv (clauses a and c + allocation discipline) is preserved by every valid op, proved for creation ops, "
-               "append/insert/[]=/slice=/extend/+= (originals and TreeList sources, both import strategies), + with a TreeList, read, new_tree, "
-               "slicing, pop/del/remove, Tree copies, Tree.migrate/reconstruct (both unify flags), matrix []=/new_sequence, "
-               "DataSet.add/new_*/attach/detach, TreeArray refusal; NOT for + with a plain list, TreeList copies, TreeList/CharacterMatrix "
-               "migrate/reconstruct, matrix copies, DataSet.unify_taxon_namespaces and DataSet.read (correspondence + oracle only); "
-               "closed_reachable_partial / closed_from_init_partial (induction over histories); stepG_refuses; removed_tree_consistent and "
-               "replaced_tree_consistent (clause c, tied to the position); clause b for whole label-unifying passes with a shared memo: "
-               "mapTaxa_unify_spec (nothing dropped, every item on the taxon label resolution answers, memo/store hypotheses re-established), "
-               "migrateTree_unify_spec, resolved_member_label, same_taxon_iff_equal_labels (same taxon <=> equal labels under the case rule, "
-               "also with duplicate labels in the namespace), mapTaxa_shape (any unify flag); the older single-resolution forms "
-               "migrate_*_partial. Not lifted: matrix passes (mapKeys refusal rule), the readers' last-match lookup, unify=False distinctness.")
+EXPLANATION = ("Theorems (Props/C11.lean + Theory/C11Fresh.lean, about the definitions drv_c11 runs; stepG = step guarded by idsOk): "
+               "closed_init; closed_step / closed_stepG - Inv (clauses a and c + allocation discipline) is preserved by EVERY op of the alphabet "
+               "inside the ownership domain `valid` (incl. TreeList/CharacterMatrix migrate/reconstruct, copies, + with a plain list, "
+               "DataSet.unify_taxon_namespaces, DataSet.read); closed_reachable / closed_from_init (induction over histories); the earlier "
+               "closed_*_partial forms are kept; stepG_refuses; removed_tree_consistent, replaced_tree_consistent (clause c); fresh_step / "
+               "fresh_reachable / freshNs_reachable (every referenced taxon id is allocated: an unconditional history invariant); clause b for "
+               "whole passes: mapTaxa_unify_spec, migrateTree_unify_spec, migrateTree_unify_reachable (no side conditions), "
+               "resolved_member_label, same_taxon_iff_equal_labels, mapTaxa_shape; matrices: mapKeys_unify_spec, migrateMat_ok_closed, "
+               "migrateMat_refused_state (the known finding's state, precisely); unify_false_distinct_partial (one/two items, not lifted to "
+               "whole runs); migrate_*_partial (single resolutions). Not proved: unify=False distinctness over whole runs, the readers' "
+               "last-match lookup as a label spec, 'no sequence merged' for accepted matrix passes (needs key-list Nodup).")
 
 LABEL_POOL = ["A", "B", "C", "D", "a", "b", "E", "Ab", "AB", "c_1", "x y", "'q'", "E", "A"]
 
